@@ -1,5 +1,3 @@
-//go:build wip_c12
-
 package kit
 
 import (
@@ -85,7 +83,9 @@ type LenBounds struct {
 type lenLoop struct {
 	v      types.Object
 	lo     int64
-	bound  ast.Expr // i < bound (strict) or i <= bound
+	bound  ast.Expr // i+off < bound (strict) or i+off <= bound
+	off    int64
+	step   int64
 	strict bool
 	rangeX bool // `for i := range X`
 	stmt   ast.Stmt
@@ -178,7 +178,7 @@ func (d lenDom) sat(op token.Token, c int64) lenDom {
 	return d
 }
 
-func negOp(op token.Token) token.Token {
+func lenNegOp(op token.Token) token.Token {
 	switch op {
 	case token.LSS:
 		return token.GEQ
@@ -196,7 +196,7 @@ func negOp(op token.Token) token.Token {
 	return op
 }
 
-func flipOp(op token.Token) token.Token {
+func lenFlipOp(op token.Token) token.Token {
 	switch op {
 	case token.LSS:
 		return token.GTR
@@ -290,7 +290,7 @@ func (lf *LenFlow) isLenOfX(e ast.Expr) bool {
 	return ok && b.Name() == "len" && lf.isX(c.Args[0])
 }
 
-func isIntType(t types.Type) bool {
+func lenIsInt(t types.Type) bool {
 	if t == nil {
 		return false
 	}
@@ -306,7 +306,7 @@ func (lf *LenFlow) trackable(o types.Object) bool {
 	if v.Parent() == nil || v.Pkg() == nil || v.Parent() == v.Pkg().Scope() {
 		return false
 	}
-	return isIntType(v.Type())
+	return lenIsInt(v.Type())
 }
 
 // prepare computes the static facts and refuses unsupported shapes.
@@ -437,7 +437,7 @@ func (lf *LenFlow) prepare() {
 		case *ast.RangeStmt:
 			if lf.isX(y.X) && y.Key != nil {
 				if o := ObjOf(info, y.Key); o != nil && !lf.assignedIn(y.Body, o) {
-					lf.loops[o] = &lenLoop{v: o, lo: 0, rangeX: true, stmt: y, clean: true}
+					lf.loops[o] = &lenLoop{v: o, lo: 0, step: 1, rangeX: true, stmt: y, clean: true}
 				}
 			}
 		}
@@ -580,6 +580,7 @@ func (lf *LenFlow) canonFor(fs *ast.ForStmt) {
 	if v == nil || !okc || lo < 0 {
 		return
 	}
+	step := int64(1)
 	switch p := fs.Post.(type) {
 	case *ast.IncDecStmt:
 		if p.Tok != token.INC || ObjOf(info, p.X) != v {
@@ -589,9 +590,11 @@ func (lf *LenFlow) canonFor(fs *ast.ForStmt) {
 		if p.Tok != token.ADD_ASSIGN || len(p.Lhs) != 1 || ObjOf(info, p.Lhs[0]) != v {
 			return
 		}
-		if c, ok := ConstInt(info, p.Rhs[0]); !ok || c <= 0 {
+		c, ok := ConstInt(info, p.Rhs[0])
+		if !ok || c <= 0 {
 			return
 		}
+		step = c
 	default:
 		return
 	}
@@ -599,10 +602,37 @@ func (lf *LenFlow) canonFor(fs *ast.ForStmt) {
 	if !okc {
 		return
 	}
-	if ObjOf(info, a) != v {
-		a, b, op = b, a, flipOp(op)
+	// one side is v, v+c or v-c (c constant); the other is the bound
+	side := func(e ast.Expr) (int64, bool) {
+		e = ast.Unparen(e)
+		if ObjOf(info, e) == v {
+			if _, isIdent := e.(*ast.Ident); isIdent {
+				return 0, true
+			}
+		}
+		if be, ok := e.(*ast.BinaryExpr); ok && (be.Op == token.ADD || be.Op == token.SUB) {
+			if id, isIdent := ast.Unparen(be.X).(*ast.Ident); isIdent && ObjOf(info, id) == v {
+				if c, ok := ConstInt(info, be.Y); ok {
+					if be.Op == token.SUB {
+						c = -c
+					}
+					return c, true
+				}
+			}
+			if id, isIdent := ast.Unparen(be.Y).(*ast.Ident); isIdent && ObjOf(info, id) == v && be.Op == token.ADD {
+				if c, ok := ConstInt(info, be.X); ok {
+					return c, true
+				}
+			}
+		}
+		return 0, false
 	}
-	if ObjOf(info, a) != v || (op != token.LSS && op != token.LEQ) {
+	off, isV := side(a)
+	if !isV {
+		a, b, op = b, a, lenFlipOp(op)
+		off, isV = side(a)
+	}
+	if !isV || (op != token.LSS && op != token.LEQ) {
 		return
 	}
 	if lf.assignedIn(fs.Body, v) {
@@ -631,7 +661,7 @@ func (lf *LenFlow) canonFor(fs *ast.ForStmt) {
 		}
 		return clean
 	})
-	lf.loops[v] = &lenLoop{v: v, lo: lo, bound: b, strict: op == token.LSS, stmt: fs, clean: clean}
+	lf.loops[v] = &lenLoop{v: v, lo: lo, bound: b, off: off, step: step, strict: op == token.LSS, stmt: fs, clean: clean}
 	lf.loopCnd[fs.Cond] = true
 }
 
@@ -744,7 +774,7 @@ func (lf *LenFlow) EvalSym(e ast.Expr, s S) (LenSym, bool) {
 			if b, ok := tv.Type.Underlying().(*types.Basic); ok {
 				switch b.Kind() {
 				case types.Int, types.Int64, types.Uint, types.Uint64:
-					if isIntType(lf.info.TypeOf(x.Args[0])) {
+					if lenIsInt(lf.info.TypeOf(x.Args[0])) {
 						return lf.EvalSym(x.Args[0], s)
 					}
 				}
@@ -859,7 +889,11 @@ func (a lenLin) String() string {
 	}
 	var names []string
 	for o, c := range a.at {
-		names = append(names, fmt.Sprintf("%d*%s", c, o.Name()))
+		if c == 1 {
+			names = append(names, o.Name())
+		} else {
+			names = append(names, fmt.Sprintf("%d*%s", c, o.Name()))
+		}
 	}
 	for k, c := range a.dv {
 		names = append(names, fmt.Sprintf("%d*((L+%s)", c, strings.Replace(k, ":", ")/", 1)+")"))
@@ -873,12 +907,12 @@ func (a lenLin) String() string {
 	return strings.ReplaceAll(s, "+-", "-")
 }
 
-func constLin(c int64) lenLin {
+func lenConstLin(c int64) lenLin {
 	return lenLin{c0: c, at: map[types.Object]int64{}, dv: map[string]int64{}}
 }
 
-func symLin(v LenSym) lenLin {
-	r := constLin(0)
+func lenSymLin(v LenSym) lenLin {
+	r := lenConstLin(0)
 	switch v.Kind {
 	case 'c':
 		r.c0 = v.C
@@ -893,12 +927,12 @@ func symLin(v LenSym) lenLin {
 func (lf *LenFlow) lin(e ast.Expr, s S) (lenLin, bool) {
 	e = ast.Unparen(e)
 	if v, ok := lf.EvalSym(e, s); ok {
-		return symLin(v), true
+		return lenSymLin(v), true
 	}
 	switch x := e.(type) {
 	case *ast.Ident:
 		if o := ObjOf(lf.info, x); o != nil && lf.loops[o] != nil {
-			r := constLin(0)
+			r := lenConstLin(0)
 			r.at[o] = 1
 			return r, true
 		}
@@ -907,7 +941,7 @@ func (lf *LenFlow) lin(e ast.Expr, s S) (lenLin, bool) {
 			if b, ok := tv.Type.Underlying().(*types.Basic); ok {
 				switch b.Kind() {
 				case types.Int, types.Int64, types.Uint, types.Uint64:
-					if isIntType(lf.info.TypeOf(x.Args[0])) {
+					if lenIsInt(lf.info.TypeOf(x.Args[0])) {
 						return lf.lin(x.Args[0], s)
 					}
 				}
@@ -957,9 +991,9 @@ func (lf *LenFlow) proveNonNeg(g lenLin, dom lenDom, s S) bool {
 			if !ok || len(b.at) > 0 {
 				return false
 			}
-			ub = b
+			ub = b.add(lenConstLin(lp.off), -1)
 			if lp.strict {
-				ub = ub.add(constLin(1), -1)
+				ub = ub.add(lenConstLin(1), -1)
 			}
 		}
 		g = g.add(ub.scale(c), 1)
@@ -1009,7 +1043,7 @@ func (lf *LenFlow) proveNonNeg(g lenLin, dom lenDom, s S) bool {
 // loop (so that inside the body the quotient is >= 1).
 func (lf *LenFlow) divFromLoop(key string, s S) bool {
 	for _, lp := range lf.loops {
-		if lp.bound == nil {
+		if lp.bound == nil || lp.off < 0 {
 			continue
 		}
 		if b, ok := lf.lin(lp.bound, s); ok && len(b.dv) == 1 && b.dv[key] == 1 && b.c0 == 0 && b.cL == 0 {
@@ -1066,11 +1100,12 @@ func (lf *LenFlow) refute(g lenLin, dom lenDom, s S) (string, bool) {
 				sd, _ := strconv.ParseInt(p[1], 10, 64)
 				hi += c * ((l + k) / sd)
 			}
+			hi -= lp.off
 			if lp.strict {
 				hi--
 			}
 		}
-		for i := lp.lo; i <= hi && i < lp.lo+4096; i++ {
+		for i := lp.lo; i <= hi && i < lp.lo+4096*lp.step; i += lp.step {
 			if base+ci*i < 0 {
 				return fmt.Sprintf("len=%d, %s=%d", l, lp.v.Name(), i), true
 			}
@@ -1119,9 +1154,9 @@ func (lf *LenFlow) checkSite(st *LenSite, s S) {
 			break
 		}
 		bounds.Lo, bounds.Hi = ix.String(), ix.String()
-		goals = append(goals, goal{ix, "index >= 0"}, goal{L.add(ix, -1).add(constLin(1), -1), "index < len"})
+		goals = append(goals, goal{ix, "index >= 0"}, goal{L.add(ix, -1).add(lenConstLin(1), -1), "index < len"})
 	case *ast.SliceExpr:
-		lo, hi := constLin(0), L
+		lo, hi := lenConstLin(0), L
 		ok1, ok2 := true, true
 		if x.Low != nil {
 			lo, ok1 = lf.lin(x.Low, s)
@@ -1415,7 +1450,7 @@ func (lf *LenFlow) evalCond(e ast.Expr, s S) []lenSV {
 
 // cmpLeaf interprets a comparison between two symbolic integers.
 func (lf *LenFlow) cmpLeaf(a, b ast.Expr, op token.Token, s S) ([]lenSV, bool) {
-	if !isIntType(lf.info.TypeOf(a)) || !isIntType(lf.info.TypeOf(b)) {
+	if !lenIsInt(lf.info.TypeOf(a)) || !lenIsInt(lf.info.TypeOf(b)) {
 		return nil, false
 	}
 	va, ok1 := lf.EvalSym(a, s)
@@ -1451,14 +1486,14 @@ func (lf *LenFlow) cmpLeaf(a, b ast.Expr, op token.Token, s S) ([]lenSV, bool) {
 		c = vb.C - va.K
 	} else {
 		c = va.C - vb.K
-		o = flipOp(op)
+		o = lenFlipOp(op)
 	}
 	dom := parseLenDom(s.Get("L"))
 	var out []lenSV
 	if t := dom.sat(o, c); len(t) > 0 {
 		out = append(out, lenSV{s.Set("L", t.String()), true})
 	}
-	if f := dom.sat(negOp(o), c); len(f) > 0 {
+	if f := dom.sat(lenNegOp(o), c); len(f) > 0 {
 		out = append(out, lenSV{s.Set("L", f.String()), false})
 	}
 	return out, true
@@ -1505,7 +1540,7 @@ func (lf *LenFlow) Run() {
 		Other: func(br Branch, s S) (t, f []S) {
 			if br.Kind == BrCase && br.Tag != nil {
 				lf.sitesIn(br.Case, s)
-				if isIntType(lf.info.TypeOf(br.Tag)) {
+				if lenIsInt(lf.info.TypeOf(br.Tag)) {
 					if r, ok := lf.cmpLeaf(br.Tag, br.Case, token.EQL, s); ok {
 						return split(r)
 					}
